@@ -40,6 +40,7 @@ Definition LAG_PERIODICITY : nat := 4.
 
 Section Machine.
 Variable len : nat.                            (* length of the source *)
+Variable known : bool.                         (* does the source report its length? *)
 Variable stop : nat -> bool.
 (** the runner's decisions ([do_spawn], [next_chunk_size]); [has_more] is passed as
     [Some remaining] ([Some 0] = [HasMore::No]) or [None] ([Maybe]) *)
@@ -48,8 +49,9 @@ Variable nextc : nat -> option nat -> option nat.
 
 Definition fresh (c : nat) : worker := mkW c Ready [] [] [].
 
-(** [has_more()] of an indexed source: [try_get_len] = len - min(counter, len) *)
-Definition has_more (s : sys) : option nat := Some (len - ctr s).
+(** [has_more()]: for a source that reports its length, [try_get_len] = len - min(counter, len)
+    ([Yes n] / [No]); otherwise [Maybe]. *)
+Definition has_more (s : sys) : option nat := if known then Some (len - ctr s) else None.
 
 Definition spawn (s : sys) (ph' : sphase) : sys :=
   mkS (ctr s) (front s) (skipped s) (ws s ++ [fresh (cur s)]) ph' (cur s).
